@@ -123,6 +123,10 @@ class Observer:
             out["del"][str(d)] = {str(pos): self.hashval(h, cs) for pos, h in dd["deleted"].items()}
             out["links"][str(d)] = {l["sub"].decode("latin1"): [l["kind"], l["linkto"].decode("latin1")] for l in dd["links"]}
             out["dirs"][str(d)] = sorted(s.decode("latin1") for s in dd["dirs"])
+        out["uuid"] = {}
+        for m in cs.get("maps", []):
+            if m["name"] in names:
+                out["uuid"][str(names.index(m["name"]))] = m["uuid"].decode("latin1")
         out["info"] = [None if e is None else {"t": e["t"], "bad": e["bad"], "rh": e["rehash"], "js": e["justsynced"]}
                        for e in cs["info"]]
         return out, cs
